@@ -10,6 +10,62 @@ NOTE_COMMON = ("Trusted: Coq 8.16.1 kernel (+vm_compute for finite sweeps/exampl
                "crates are modelled by their documented behaviour, not verified. ")
 
 CLAIMED = {
+    "C02": dict(
+        text="Proof: stream::Parser (parse with dest = Some/None, parse_head, the four record states, compress/copy_within, consume_stream, "
+             "consume_output, set_stream, conversions) is modelled at index level (cursors into one buffer) and proved to refine a list-level "
+             "machine on every input (C02_refinement). The specification content K (what the active stream of this request still delivers from "
+             "given bytes) is conserved: for every call under the caller contract and ANY bytes, what is handed over is exactly the front of K, "
+             "nothing lost, duplicated or reordered, Status.stream counts it (C02_call, C02_call_concrete); over EVERY legal schedule of "
+             "parse / consume_stream / compress / consume_output with any chunking (C02_schedule, C02_schedule_concrete). C02_delivery(_exact): "
+             "for a request parsed from the wire and a wire continuing with ANY records (other streams, management, unknown, foreign-id records, "
+             "any padding), delivered ++ buffered ++ still-to-come is exactly the concatenated bodies of the active stream's records up to its "
+             "terminator, each byte once, in order; all of it once the input is exhausted or the end is reached. C02_stream_end / "
+             "C02_end_flag: stream_end is reported exactly when the parser stands at the terminating header, and then everything has been "
+             "delivered; C02_end_reported: once the terminator has been fed the next parse(None) reports it. Tie: differential execution of "
+             "op-interpreter schedules (direct and buffered reads of every size, 1-byte to whole-buffer feeding, compress / consume_output "
+             "interleavings) on generated stream sections, with an independent oracle.",
+        design="6/C02", technique="Coq proof (index-to-list refinement; conserved specification functions K/F/R; induction over all schedules; record-level reading) + differential execution of scheduled parser operations with independent oracle",
+        note="caller contract as documented (fed bytes fit the input buffer; dest only with an empty stream buffer); sizes < 2^62; progress for dest = Some c is stated for dest = None only (a full caller buffer legitimately stops the call)."),
+    "C08": dict(
+        text="Proof on the connection model (Async/Conn.v; gated client segments = a peer that withholds further records until it has seen the "
+             "replies it waits for; PBlock = Pending without wake-up), partial: C08_only_waits_for_client - the task never panics or spins and is "
+             "suspended without a pending wake-up only in a transport read that a gated client does not satisfy; at EVERY such suspension point the "
+             "accounting is proved: inside a handler read (C08_poll_input_block / C08_await_input_deadlock) the parser's output buffer is empty, "
+             "everything produced is in the transport's log, NOTHING is owed for bytes already received (R .. [] = []), the replies still owed "
+             "are exactly those of bytes the client has not delivered, and no stream data is withheld; between requests "
+             "(C08_parse_request_deadlock, C08_read_after_flush) every reply of every parse call so far is completely written before the read; "
+             "while skipping in close() (C08_record_boundary_deadlock) a suspension happens only strictly inside an unfinished record. The final "
+             "step 'hence a peer that sends whole records and waits always receives the result' is the composition of these with the peer "
+             "assumption and is decided end to end by the correspondence check: closed-loop gated clients with queries before / between / inside "
+             "requests and in the same read as a request's end, on an executor that re-polls only on wake. Defects F1 and F2 found here are "
+             "repaired in /repo (1a75639, fd29a7b); their replays are in corpus/C08 and run first.",
+        design="6/C08, 13.3", technique="Coq proof (totality + reply accounting at every suspension point of the connection model) + differential execution with closed-loop gated clients on a wake-only executor",
+        note="the liveness conclusion for the (P)-peer is composed informally from the proved suspension-point lemmas and checked by correspondence; executor/waker protocol modelled by contract."),
+    "C09": dict(
+        text="Proof on the connection model: C09_poll_input / C09_await_input - for ONE poll or awaited read with any caller buffer (read into c bytes, "
+             "fill_buf), any transport read/write behaviour and pending parser output: with dl the bytes handed over, K(before)(remaining) = dl "
+             "++ K(after)(remaining'), replies and later streams conserved; Ok(n) has n = |dl| <= c, and Ok(0) into a non-empty buffer occurs "
+             "only at end-of-stream; C09_eof_persists - at the terminator every later read returns Ok(0) without touching the transport's read "
+             "side; C09_read_to_end, C09_handler_reads - a handler mixing read / read_to_end / fill_buf+consume with any buffer sizes observes "
+             "exactly a prefix of the stream content, in order, once each; C09_handler_reads_and_switches - after set_stream the bytes delivered "
+             "are content of the newly selected stream only (trace law over the handler's observations); C09_gate / C09_initial_gate / "
+             "C09_writeable - the writeable flag is opened only by a successful parser call while the active stream is the role's final one (or "
+             "at construction for roles whose first stream is final) and never closed. Tie: differential execution of handler scripts "
+             "(all ops, buffer sizes 0..n) over cutting/Pending transports with mid-stream management records.",
+        design="6/C09", technique="Coq proof (conservation record acct over poll_input / await_input / run_handler; trace law for stream switches; gate lemmas) + differential execution of scripted handlers",
+        note="handlers with write ops are covered by C10/C07; writeable() returning Ok with the gate still closed is possible only after a parser error (observation O1 in DESIGN.md, outside the property's compliant-client clause)."),
+    "C11": dict(
+        text="Proof: C11_abort_in_params - during Params an AbortRequest for the request in progress is consumed entirely, exactly one "
+             "EndRequest(RequestComplete, 0, id) is emitted and the parser returns to Header, so no request is produced and no handler can be "
+             "invoked; an abort for any other id is skipped without reply (any body/padding). Later: C11_read_fails_with_aborted - a handler read "
+             "returns ConnectionAborted exactly when the parser stands at this request's AbortRequest header; C11_abort_sticky - the error repeats "
+             "on every later read without touching the transport; C11_prefix_before_error - input delivered before the error is a prefix of what "
+             "the client sent; C11_boundary_ignores_abort + C11_one_endrequest_and_reuse - close() passes the retained abort header, writes "
+             "exactly one EndRequest with the given status and, with KeepConn, returns the connection for reuse (the C07 reuse law). Tie: abort "
+             "placed after every record of preamble and streams, handlers reading / buffered-reading / not reading / past EOF, 0..k following "
+             "requests, all chunkings, through model and crate with an independent oracle.",
+        design="6/C11", technique="Coq proof (record-step theorem of the request parser; sticky-error and conservation lemmas of the connection model; close/reuse law) + differential execution with aborts at every record position",
+        note="'unless the handler chose its own status' is the run loop's mapping Err(ConnectionAborted) -> ABORT, modelled in Conn.run_loop and tied by correspondence; next request served correctly = C07/C01 on the reused parser."),
     "C15": dict(
         text="Proof: vi_read/vi_write/TryFrom of src/protocol/varint.rs are modelled in Gallina (bit operations as in the code) and "
              "the round-trip, exact encoding shape, injectivity, exact conversion domain, decode-completeness and canonical "
@@ -71,13 +127,16 @@ CLAIMED = {
         design="6/C06", technique="Coq proof (arithmetic; never-stuck via the 'unconsumed rest is a proper prefix of one unit' bound; exact drive additivity) + differential execution",
         note="usize assumed 64-bit; sizes assumed < 2^62 (SIZE_LIMIT) to discharge checked_add arms."),
     "C18": dict(
-        text="Proof (partial so far): cmp_input_streams and set_stream of src/parser/stream.rs are modelled at index level. Proved: the full comparison "
-             "table and the full acceptance table over their finite domains (decided by vm_compute inside Coq and lifted, domain stated in the "
-             "theorem), and for EVERY parser state: rejected selections change nothing, re-selecting keeps all buffered data, an accepted change "
-             "sets the stream, empties the stream buffer and leaves request/record position/pending output untouched; the initial stream is the "
-             "first of the role. The unbounded clause 'only bytes of the active stream are ever delivered, for any record order' is decided by the "
-             "correspondence check + oracle on scrambled stream orders with matching/foreign ids (proof pending: stream-parser invariant).",
-        design="6/C18", technique="Coq proof (finite tables by vm_compute lifted with In-lemmas; set_stream by case analysis) + differential execution on scrambled stream orders",
+        text="Proof: cmp_input_streams and set_stream of src/parser/stream.rs are modelled at index level. Proved: the full comparison table and "
+             "the full acceptance table over their finite domains (decided by vm_compute inside Coq and lifted, domain stated in the theorem) "
+             "and cmp = the readable order for EVERY role value; for EVERY parser state: rejected selections change nothing, re-selecting keeps "
+             "all buffered data, an accepted change sets the stream, empties the stream buffer and leaves request / record position / pending "
+             "output / raw input / all replies / all stream contents untouched (C18_set_stream, C18_set_stream_effect); the initial stream is "
+             "the first of the role; and the full clause C18_only_active(_records): any legal schedule, then set_stream(later stream), then any "
+             "legal schedule, over ANY record order - everything delivered in the second epoch is content of the newly selected stream of this "
+             "request as defined by the specification function over all bytes fed, and of no other; replies are conserved across the switch. "
+             "Tie: differential execution on scrambled stream orders with matching/foreign ids.",
+        design="6/C18", technique="Coq proof (finite tables by vm_compute lifted; conservation laws K/F/R of the stream parser through index-to-list refinement; two-epoch law) + differential execution on scrambled stream orders",
         note="requested selections restricted to None/Stdin/Data: other record types hit a private debug_assert in debug builds (release rejects); recorded, not claimed."),
     "C01": dict(
         text="Proof: request::Parser (State machine, SkipState/GetValuesState/HeaderState/ParamsState drives, parse_buffered/parse_stream cross-record "
@@ -94,57 +153,74 @@ CLAIMED = {
         note="HashMap modelled as insertion log (lookup = last match); CompactString::from_utf8_lossy is a theorem parameter (instance transcribed, tested); "
              "case-insensitive key matching is C19's; sizes < 2^62."),
     "C03": dict(
-        text="Proof (request parser complete, stream parser pending): for ANY byte string and ANY read schedule the request-parser model returns from "
-             "every call without panic or loop-bound exhaustion and keeps its invariant (C03_req_call_total, C03_req_total); any two schedules agree on "
-             "done/unfinished, output bytes, unread remainder and outcome incl. the specific fatal error and StuckOnInput (C03_req_chunk_invariant; the "
-             "over-strong exact-state variant is refuted with a witness and the normalisation [settle] made explicit); exact drive additivity; final "
-             "states are sticky with no further output. The stream-parser clauses (totality, invariants, prefix, error persistence) are decided by the "
-             "correspondence check + oracle and by lockstep checks of the abstract machine until their proofs (Parser/StreamSpec.v targets) complete. "
-             "Tie: mutated and random wires, >= 3 schedules per wire compared by a group oracle, all 256 type bytes, conversions at non-final states, "
-             "both build profiles (debug assertions and overflow checks on).",
-        design="6/C03", technique="Coq proof (totality by measure, exact additivity, schedule-invariance incl. uniqueness of the stuck point) + differential execution on hostile inputs with cross-schedule group oracle",
-        note="stream-parser part not yet proved (partial); allocation failure not modelled; sizes < 2^62."),
+        text="Proof: request parser - for ANY byte string and ANY read schedule every call returns without panic or loop-bound exhaustion and keeps "
+             "its invariant (C03_req_call_total, C03_req_total); any two schedules agree on done/unfinished, output bytes, unread remainder and "
+             "outcome incl. the specific fatal error and StuckOnInput (C03_req_chunk_invariant; the over-strong exact-state variant is refuted "
+             "with a witness and the normalisation [settle] made explicit); exact drive additivity; final states are sticky with no further "
+             "output. Stream parser - C03_stream_total_and_invariant: every state reachable from a converted parser by legal calls and accepted "
+             "set_stream calls satisfies the five debug_assert_invars! inequalities and the representation invariant; every call under the "
+             "caller contract returns Ok or Err for ANY bytes (no panic); an Err is AbortRequest or UnknownVersion and is reported again by "
+             "every later call with nothing delivered and nothing emitted; over every legal schedule the bytes handed over are a prefix of the "
+             "specification content K of the bytes fed (a function of the bytes alone, hence chunking-invariant); the index-level parser "
+             "refines the list-level machine on every input (C03_stream_refinement). Tie: mutated and random wires, >= 3 schedules per wire "
+             "compared by a group oracle, all 256 type bytes, conversions at non-final states, both build profiles.",
+        design="6/C03", technique="Coq proof (totality by measure, exact additivity, schedule invariance; stream parser: index-to-list refinement + conserved quantities over all schedules) + differential execution on hostile inputs with cross-schedule group oracle",
+        note="allocation failure not modelled; sizes < 2^62; the stream parser's caller contract (new input fits, dest only with empty stream buffer) is the documented one."),
     "C04": dict(
-        text="Proof (request parser complete, stream parser pending): reply_for is the specification of the owed reply per record and phase. "
-             "C04_req_record: every complete record at a record boundary is consumed entirely, emits exactly reply_for and moves the phase machine as "
-             "specified; C04_req_sequence: for any accepted record sequence the output is the concatenation of the owed replies in order; "
-             "C04_req_preamble_replies: under every chunking of a well-formed preamble. GetValues bodies split at any offset are covered through exact "
-             "drive additivity. Stream-parser replies (T_replies_stmt) are decided by correspondence + oracle + lockstep until proved. Tie: dense junk, "
-             "all 245 unknown types x positions x paddings, GetValues bodies with known/unknown/repeated/non-UTF-8/value-carrying names and incomplete "
+        text="Proof: reply_for is the specification of the owed reply per record and phase. Request parser - C04_req_record: every complete record "
+             "at a record boundary is consumed entirely, emits exactly reply_for and moves the phase machine as specified; C04_req_sequence: for "
+             "any accepted record sequence the output is the concatenation of the owed replies in order; C04_req_preamble_replies: under every "
+             "chunking of a well-formed preamble. Stream parser - C04_stream_any_bytes: for ARBITRARY bytes and every legal schedule, emitted ++ "
+             "pending ++ still-owed equals the reply specification R of the bytes fed (none lost, none duplicated, in order); "
+             "C04_replies_of_records reads R record by record (unknown type -> UnknownType, non-empty GetValues -> GetValuesResult, BeginRequest "
+             "for another id -> EndRequest CantMpxConn, nothing else); C04_stream_records(_exact): for a converted parser over a wire of records, "
+             "everything emitted and pending is a prefix of the replies owed, all of them once nothing is left to parse. Tie: dense junk, all "
+             "245 unknown types x positions x paddings, GetValues bodies with known/unknown/repeated/non-UTF-8/value-carrying names and incomplete "
              "trailing pairs under 1-byte reads, abort mid-Params, consume_output(k) interleavings; oracle recomputes owed replies independently.",
-        design="6/C04", technique="Coq proof (record-level simulation of the state machine against the reply specification) + differential execution with independent reply oracle",
-        note="stream-parser part not yet proved (partial); unknown-type replies echo the received request id (as the crate's tests pin)."),
+        design="6/C04", technique="Coq proof (record-level simulation against the reply specification; stream parser: conserved reply function R over all schedules, record-level reading) + differential execution with independent reply oracle",
+        note="unknown-type replies echo the received request id (as the crate's tests pin); replies after an AbortRequest of the running request are not owed (the parser stops there)."),
     "C05": dict(
-        text="Proof (request-parser hand-offs complete; stream-parser hand-offs and the k-request chain pending): after any schedule over any bytes "
-             "fed = consumed ++ held ++ unfed (C05_leftover_req); into_request / into_stream_parser hand over exactly the held bytes; on well-formed "
-             "preambles the leftover is exactly the bytes after the preamble for every look-ahead (C05_leftover_exact). The chain property is decided "
-             "by the correspondence check (k = 1..4/8 requests on one buffer, reader policies never/mid/end, gated client) + oracle until proved. "
-             "Observation recorded in DESIGN.md: a stream parser told to skip (set_stream(None)) consumes a buffered next BeginRequest as a foreign one; "
-             "the property's hand-offs therefore assume the next request's bytes are not yet buffered (one-outstanding client).",
-        design="6/C05", technique="Coq proof (rest-is-suffix through drive/parse/schedule) + differential execution of conversion chains with gated client",
-        note="stream-parser part not yet proved (partial)."),
+        text="Proof: request parser - after any schedule over any bytes fed = consumed ++ held ++ unfed (C05_leftover_req); into_request / "
+             "into_stream_parser hand over exactly the held bytes (C05_to_stream_parser); on well-formed preambles the leftover is exactly the "
+             "bytes after the preamble for every look-ahead (C05_leftover_exact). Stream parser - C05_stream_handoff: over every legal schedule "
+             "the unparsed input is exactly the unread suffix of leftover ++ fed; at a record boundary with the output taken, "
+             "into_request_parser succeeds and the new request parser holds exactly those bytes with unchanged capacity in state Header; "
+             "into_input returns them; off a boundary both refuse (Interrupted) without touching anything. The k-request chain composes these "
+             "per-hand-off theorems; it is additionally exercised end to end by the correspondence check (k = 1..4/8 requests on one buffer, "
+             "reader policies never/mid/end, gated client) + oracle. Observation recorded in DESIGN.md: a stream parser told to skip "
+             "(set_stream(None)) consumes a buffered next BeginRequest as a foreign one; the hand-offs therefore assume the next request's bytes "
+             "are not yet buffered (one-outstanding client).",
+        design="6/C05", technique="Coq proof (rest-is-suffix through drive/parse/schedule; stream-parser raw-bytes conservation and conversion lemmas) + differential execution of conversion chains with gated client",
+        note="the k-fold composition itself is not stated as one theorem; into_request_parser with pending output is the crate's debug_assert (contract)."),
     "C07": dict(
         text="Proof on the connection model (Async/Conn.v: Token::run, parse_request, Request::{poll_input, poll_output, writeable, record_boundary, "
-             "close}, StreamWriter writes, scripted handlers/transport/gated client), partial: C07_epilogue is proved for every transport "
-             "behaviour - close writes, after skipping to a record boundary without writing, exactly the pending management replies, the empty "
-             "Stdout and Stderr records and one EndRequest with the exit status' protocol/application status and the request id. The one-call and "
-             "reuse clauses are decided by the correspondence check (the model agrees with the real Token::run on every generated connection: "
+             "close}, StreamWriter writes, scripted handlers/transport/gated client), partial: C07_epilogue - for every transport behaviour close "
+             "writes, after skipping to a record boundary without writing, exactly the pending management replies, the empty Stdout and Stderr "
+             "records and one EndRequest with the exit status' protocol/application status and the request id; C07_reuse / C07_close_cases - the "
+             "connection is handed back for the next request IF AND ONLY IF the request carried KeepConn and every write succeeded; without "
+             "KeepConn it ends (ConnectionReset) after the complete epilogue; a failed or zero-length write leaves a proper prefix and ends the "
+             "connection with that error; a read error while skipping writes nothing. The clause 'exactly one handler invocation seeing exactly "
+             "that request' is decided by the correspondence check (the model agrees with the real Token::run on every generated connection: "
              "handler events, transport log, bytes consumed, poll count) + an independent oracle that decodes the transport log; these clauses "
              "found defect F3 (leftover filling the buffer => connection dropped despite KeepConn), repaired in /repo fd29a7b; its replay is in "
              "corpus/C07 and runs first. Partial as to the runtime: executor/waker protocol, rustc's async lowering, futures-util select/Mutex are "
              "modelled by contract.",
-        design="6/C07, 13.3", technique="Coq proof on an executable connection model (write path, epilogue) + differential execution of scripted connections on a deterministic executor with log-decoding oracle",
-        note="one-call/reuse clauses not yet proved (correspondence + oracle only); single task; handlers await each I/O op to completion."),
+        design="6/C07, 13.3", technique="Coq proof on an executable connection model (write path, epilogue, reuse decision) + differential execution of scripted connections on a deterministic executor with log-decoding oracle",
+        note="one-call clause over the whole loop not yet proved (correspondence + oracle); single task; handlers await each I/O op to completion."),
     "C10": dict(
-        text="Proof, partial: for a writer's write_all the transport log grows by exactly the records of the data's <= 65535-byte chunks "
+        text="Proof: single writer - for a writer's write_all the transport log grows by exactly the records of the data's <= 65535-byte chunks "
              "(C10_exact), for every way the transport splits or delays the vectored write incl. the first-slice fallback (C10_any_split); each "
              "record is complete and well-formed with the writer's type, the request id, padding < 8 and body+padding a multiple of 8 "
              "(C10_record_wf); payloads concatenate to exactly the written bytes (C10_payload_is_data) and decode back (C10_decodes_back); the "
-             "parser's own replies are flushed under the same lock discipline (C10_poll_output). The mutual exclusion of several writers on "
-             "separately polled tasks is modelled (Async/Writer.v: lock owner, per-record state) and decided by the correspondence check: 1..3 "
-             "writers incl. clones + the request's reply flushing polled in scripted orders over cutting/Pending transports; proof pending.",
-        design="6/C10", technique="Coq proof (write loops: exact bytes for every transport split) + differential execution of scripted multi-writer poll orders with record-decoding oracle",
-        note="multi-writer exclusion not yet proved (model + correspondence); futures-util Mutex modelled as owner field; fairness not claimed."),
+             "parser's own replies are flushed under the same lock discipline (C10_poll_output). Several writers - C10_writers_exclusive: on the "
+             "model of any number of StreamWriters plus the request's reply flushing sharing the output lock (Async/Writer.v), for EVERY poll "
+             "order, data, transport write script (any accept sizes, Pending, zero and failing writes, vectored or not) and client input, the "
+             "log is a concatenation of COMPLETE lock tenures (one whole record of one writer, or one whole reply flush) followed by the part of "
+             "the current holder's tenure only; per writer, payloads in log order ++ record in progress ++ unwritten data = the data it was "
+             "given; C10_writers_complete, C10_writer_waits, C10_request_waits. Tie: 1..3 writers incl. clones + reply flushing polled in "
+             "scripted orders over cutting/Pending transports, through model and crate.",
+        design="6/C10", technique="Coq proof (write loops: exact bytes for every transport split; inductive lock-tenure invariant over all poll orders) + differential execution of scripted multi-writer poll orders with record-decoding oracle",
+        note="futures-util Mutex modelled as an owner field taken by whoever polls first while free (no hand-off, no fairness claimed); writers are created before the schedule starts."),
     "C12": dict(
         text="Proof on the connection model (Async/Conn.v): C12_terminates - for EVERY read script and write script (read errors, write errors, "
              "zero-length writes, spurious not-ready results at any call index), every client byte string cut off at any offset, every buffer size and "
